@@ -40,23 +40,26 @@ Definition C01_ok (tr : trace) : bool := c01_mon false tr.
    runs again iff it ran before ---------- *)
 Definition exited_label (l : label) : bool := match l with LExit _ => true | _ => false end.
 
-(* alive: number of started, not yet exited background threads *)
-Fixpoint c04_mon (acked saving : bool) (alive : nat) (tr : trace) : bool :=
+(* started / joined: background threads started and joined by the control thread so far *)
+Fixpoint c04_mon (acked saving : bool) (started joined : nat) (tr : trace) : bool :=
   match tr with
   | [] => true
   | (t, l) :: r =>
       match t, l with
-      | TCtl, LClockPause => c04_mon true saving alive r
-      | TCtl, LClockResume => negb saving && c04_mon false saving alive r
-      | TCtl, LSaveB => (acked || (alive =? 0)) && c04_mon acked true alive r
-      | TCtl, LSaveE | TCtl, LSaveRaise => c04_mon acked false alive r
-      | TCtl, LStart (TBg _) => c04_mon acked saving (S alive) r
-      | TBg _, LExit _ => negb saving && c04_mon acked saving (pred alive) r
-      | TBg _, _ => (if saving then quiescent_label l else true) && c04_mon acked saving alive r
-      | _, _ => c04_mon acked saving alive r
+      | TCtl, LClockPause => c04_mon true saving started joined r
+      | TCtl, LClockResume => negb saving && c04_mon false saving started joined r
+      | TCtl, LSet ERes => negb saving && c04_mon false saving started joined r
+      (* a state is written inside an acknowledged pause, or after every started thread has been joined *)
+      | TCtl, LSaveB => (acked || (joined =? started)) && c04_mon acked true started joined r
+      | TCtl, LSaveE | TCtl, LSaveRaise => c04_mon acked false started joined r
+      | TCtl, LStart (TBg _) => c04_mon acked saving (S started) joined r
+      | TCtl, LJoin (TBg _) => c04_mon acked saving started (S joined) r
+      (* while it is written, background threads perform handshake operations only *)
+      | TBg _, _ => (if saving then quiescent_label l else true) && c04_mon acked saving started joined r
+      | _, _ => c04_mon acked saving started joined r
       end
   end.
-Definition C04_ok (tr : trace) : bool := c04_mon false false 0 tr.
+Definition C04_ok (tr : trace) : bool := c04_mon false false 0 0 tr.
 
 (* ---------- C09: per component protocol and thread affinity ---------- *)
 Inductive comp := CompAgent | CompEnv | CompTrainer.
@@ -167,23 +170,22 @@ Definition C03_ok (complete : bool) (tr : trace) : bool :=
   (ticks_after_flag false tr <=? 1) &&
   (if existsb is_fault tr then (if complete then main_exited tr else true) else true).
 
-(* ---------- C02: a complete run ends with every thread gone and the final state written after all of them ---------- *)
-Fixpoint c02_mon (alive : nat) (saved_final : bool) (tr : trace) : bool :=
+(* ---------- C02: every started background thread is joined before launch() ends, a joined thread does
+   nothing any more, and the state written after the joins (the final one) comes after all of them ---------- *)
+Fixpoint c02_mon (started joined : nat) (tr : trace) : bool :=
   match tr with
   | [] => true
   | (t, l) :: r =>
       match t, l with
-      | TCtl, LStart (TBg _) => c02_mon (S alive) saved_final r
-      | TBg _, LExit _ => negb saved_final && c02_mon (pred alive) saved_final r
-      | TBg _, _ => negb saved_final && c02_mon alive saved_final r
-      | TCtl, LExit _ => (alive =? 0) && c02_mon alive saved_final r
-      | TCtl, LJoin (TBg _) => c02_mon alive saved_final r
-      | TCtl, LSaveB => c02_mon alive (alive =? 0) r
-      | _, _ => c02_mon alive saved_final r
+      | TCtl, LStart (TBg _) => c02_mon (S started) joined r
+      | TCtl, LJoin (TBg _) => (joined <? started) && c02_mon started (S joined) r
+      | TBg _, _ => (joined <? started) && c02_mon started joined r       (* only not-yet-joined threads act *)
+      | TCtl, LExit _ => (joined =? started) && c02_mon started joined r   (* launch() is over: everybody has been joined *)
+      | _, _ => c02_mon started joined r
       end
   end.
 Definition C02_ok (complete : bool) (tr : trace) : bool :=
-  c02_mon 0 false tr && (if complete then main_exited tr else true).
+  c02_mon 0 0 tr && (if complete then main_exited tr else true).
 
 (* ---------- C17: commands accepted by the web API are executed once, in acceptance order, up to a shutdown ---------- *)
 Definition cmd_eqb (a b : cmd) : bool :=
